@@ -354,6 +354,12 @@ Theorem C02_two_tables : forall a b ta tb, write_gff a = Some ta -> write_gff b 
 Proof. exact two_tables_offset. Qed.
 Print Assumptions C02_two_tables.
 
+(* ... and from the start of the stream the table of the joined list: the version line of the second table is a comment *)
+Theorem C02_two_tables_joined : forall a b ta tb, Forall good a -> Forall good b -> write_gff a = Some ta -> write_gff b = Some tb ->
+  exists tab, write_gff (a ++ b) = Some tab /\ read_gff (stream_rest (PSeek 0) (ta ++ tb)) = read_gff tab.
+Proof. exact two_tables_joined. Qed.
+Print Assumptions C02_two_tables_joined.
+
 Theorem C02_two_tables_xsv : forall sep ft names names' a b,
   read_xsv sep ft (stream_rest (PSeek (length (write_xsv sep names' a))) (write_xsv sep names' a ++ write_xsv sep names b))
   = read_xsv sep ft (write_xsv sep names b).
@@ -465,3 +471,10 @@ Proof. exact canon_exp_ex. Qed.
 Example C02_witness_stream : Forall (fun l => has x0a l = false) ex_title /\
   stream_rest (PLines 2) (concat (map (fun l => l ++ nl) ex_title) ++ bs "##gff-version 3"%bs) = bs "##gff-version 3"%bs.
 Proof. exact ex_title_ok. Qed.
+
+Example C02_witness_two_tables : Forall good [ex_cds] /\ Forall good [ex_cds; ex_cds] /\
+  match write_gff [ex_cds], write_gff [ex_cds; ex_cds] with
+  | Some t, Some t2 => match read_gff (t ++ t), read_gff t2 with Some r, Some r' => Nat.eqb (length r) (length r') && negb (Nat.eqb (length r) 0) | _, _ => false end
+  | _, _ => false
+  end = true.
+Proof. exact ex_two_tables_ok. Qed.
